@@ -379,7 +379,13 @@ def r_queue_locked(ctx):
                 dq = a
             elif a and 'Lock' in unparse(n.value):
                 lock = a
-    ctx.require(dq and lock, 'FastQueue deque / lock not found')
+    ctx.require(dq, 'FastQueue deque not found')
+    if not lock:
+        ctx.tick()
+        ctx.violation('FastQueue:queue-without-lock', init.loc(), 'the command queue shared by caller threads and the tick thread has no lock: a length check and the following '
+                      'append / pop are not atomic (an item can be lost or a refused item applied)', instance='the queue has a lock')
+        ctx.expect_min(1)
+        return
 
     def under_lock(m, node_ast, lock_attr):
         cfg = U.explorer(ctx, m).cfg
@@ -709,6 +715,16 @@ def r_attribution(ctx):
     ctx.expect_min(4)
 
 
+def _norm_key(e, param):
+    """key expression with the node parameter renamed to N (so that addNode's and dropNode's keys can be compared)"""
+    import copy
+
+    class T_(ast.NodeTransformer):
+        def visit_Name(self, x):
+            return ast.copy_location(ast.Name(id='N', ctx=ast.Load()), x) if x.id == param else x
+    return unparse(T_().visit(copy.deepcopy(e)))
+
+
 def _keyed_tables(P, func, key):
     """attributes of self looked up with the local `key`: self.A[key], self.A.get(key, ..), key in self.A"""
     out = []
@@ -746,6 +762,12 @@ def r_drop_teardown(ctx):
     # ... and the set the handshake handler adds read-only peers to
     member_sets |= set(P.self_attr(c.func.value, inc.self_name) for c in P.calls_in(inc) if isinstance(c.func, ast.Attribute) and c.func.attr == 'add') - {None}
     ctx.require(member_sets, 'addNode adds its node to no member set')
+    # the key under which addNode files the node in the address table; dropNode must remove that very key
+    add_key = None
+    for n_ in ast.walk(addn.node):
+        if isinstance(n_, ast.Assign) and isinstance(n_.targets[0], ast.Subscript) and P.self_attr(n_.targets[0].value, addn.self_name) == table:
+            add_key = _norm_key(n_.targets[0].slice, addn.params[1])
+    ctx.require(add_key, 'addNode does not file the node in the address table')
 
     def ev(n):
         out = []
@@ -755,7 +777,7 @@ def r_drop_teardown(ctx):
             a = P.self_attr(c.func.value, f.self_name)
             if a == registry and c.func.attr == 'pop':
                 out.append('unregister')
-            if a == table and c.func.attr == 'pop':
+            if a == table and c.func.attr == 'pop' and c.args and _norm_key(c.args[0], node) == add_key:
                 out.append('forget-address')
             if c.func.attr == 'disconnect':
                 out.append('disconnect')
@@ -950,7 +972,17 @@ def r_readonly_id_unique(ctx):
             counter = P.self_attr(n.target, f.self_name)
         elif isinstance(n, ast.Assign) and U.increment_amount(P, f, n, P.self_attr(n.targets[0], f.self_name) or '') is not None:
             counter = P.self_attr(n.targets[0], f.self_name)
-    ctx.require(counter, 'counter naming read-only peers not found')
+    if counter is None:
+        # no counter at all: how is the identity of a read-only peer built?  Node(<id>) with an id that can repeat is a violation
+        mk = [c for c in P.calls_in(f) if isinstance(c.func, ast.Name) and c.func.id in ('Node', 'TCPNode') and c.args]
+        ctx.require(mk, 'the handshake handler neither keeps a counter nor creates a node object for read-only peers')
+        idexp = U.deref(P, f, mk[0].args[0])
+        ctx.tick()
+        ctx.violation('%s:readonly-id-not-from-a-growing-counter' % f.qualname, f.loc(mk[0]),
+                      'the identity of a new read-only peer is `%s`, which is not taken from a counter that only grows: after an earlier peer left, a new one can get the identity of '
+                      'a peer that is still connected and take over its connection slot' % unparse(idexp), instance='read-only peer ids come from a counter that only grows')
+        ctx.expect_min(1)
+        return
     n = 0
     for m in P.methods_of(T):
         for st, kind in U.assigns_to_attr(P, m, counter):
